@@ -414,6 +414,13 @@ def attr_chains(node):
     return out
 
 
+class _Missing:
+    pass
+
+
+MISSING = _Missing()
+
+
 def const_value(node, env=None):
     """Fold a constant expression.  Raises AnalysisError if not constant.
     env: callable(name_or_dotted) -> ast expr or python value or None."""
@@ -476,7 +483,7 @@ def const_value(node, env=None):
             v = env(d)
             if isinstance(v, ast.AST):
                 return const_value(v, env)
-            if v is not None:
+            if v is not MISSING:
                 return v
     raise AnalysisError('fold-failure: %s' % src(node))
 
@@ -496,11 +503,11 @@ def class_const(prog, cls, name, _seen=None):
                 return const_value(owner.attrs[head], env)
             if head in owner.module.consts:
                 return const_value(owner.module.consts[head], env)
-            return None
+            return MISSING
         q = prog.resolve_dotted(owner.module, head)
         if q in prog.classes and '.' not in rest:
             return class_const(prog, prog.classes[q], rest)
-        return None
+        return MISSING
     return const_value(expr, env)
 
 
@@ -516,5 +523,5 @@ def module_const(prog, module, name):
         q = prog.resolve_dotted(m, head)
         if q in prog.classes and rest and '.' not in rest:
             return class_const(prog, prog.classes[q], rest)
-        return None
+        return MISSING
     return const_value(m.consts[name], env)
